@@ -1,6 +1,7 @@
 import Driver.Util
 import Driver.Meta.Sanity
 import Driver.Meta.Hdr
+import Driver.Meta.Side
 /-! package `Meta` (see CONVENTIONS.md): register components in `step`.
 `cfg` lines this package cares about may be matched here too (they must answer "ok");
 every package sees every `cfg` line. -/
@@ -10,12 +11,14 @@ open Driver
 structure St where
   debug : Bool := true
   hdrWin : Hdr.Win := Array.replicate 64 0
+  side : Side.St := {}
 
 /-- `none` = not a component of this package. -/
 def step (st : St) (toks : List String) : Option (St × String) :=
   match toks with
   | "sanity" :: args => some (st, Sanity.run args)
   | "hdr" :: args => let (w, o) := Hdr.step st.debug st.hdrWin args; some ({ st with hdrWin := w }, o)
+  | "side" :: args => let (w, o) := Side.step st.debug st.side args; some ({ st with side := w }, o)
   | _ => none
 
 /-- `cfg` lines are broadcast to every package. -/
